@@ -3,8 +3,12 @@
 Carriers: PointsToCuntzMST.__call__ (the Prim-style loop over a masked cost matrix and the construction of the returned tree),
 PointsToCuntzMST.__init__, PointsToMST.__init__, Tree.from_data_frame.  Library models of this property live in pyvc/ext_C17.py.
 
-What is proved for __call__ (n symbolic, dis = abstract Euclidean distance matrix, K = self.furcations,
-bf = self.bf, all symbolic):
+What is proved for __call__ (n symbolic, K = self.furcations, bf = self.bf, exclude_soma, sort all symbolic):
+  * distance clause (annotation point after `dis = ...`): every entry of `dis` is the Euclidean distance of the two rows of the (soma +) cloud, for whatever
+    expression the carrier computes (norm of differences, sqrt of summed squared differences, Gram matrix ...), over the reals; float clause: that expression
+    has no cancellation of rounded operands (static forward-error rule, see pyvc/ext_C17.FP); then the matrix is renamed to the abstract ghost function edist,
+    whose three properties used later (>= 0, symmetric, zero diagonal) are proved from its definition;
+  * step contract of the loop (obligations `loop-start/...`, `loop-step/...`, kind postcondition): the per-iteration form of the property, see STEP below;
   * spanning clause: after the loop every row is connected; the parent table is a tree rooted at row 0 (ghost depth
     witness, the WFtree form of contracts/common.py); the columns handed to the DataFrame carry id = 0..n-1, the
     input points in order (soma first when given), type soma / glia;
@@ -20,7 +24,8 @@ bf = self.bf, all symbolic):
   * safety: ma.argmin always has an unmasked entry to return; all indexings in bounds; shapes match;
   * frame: `self` and the input point cloud are not written.
 Ghost state (ghost code only, never assumed): g_perm / g_pos attachment order and its inverse, g_crank / g_kid rank
-of a node among its siblings and its inverse, g_depth.  Updated at the annotation point after `(i, j) = ...`.
+of a node among its siblings and its inverse, g_depth, g_nk number of children.  Updated at the annotation point after `(i, j) = ...`.
+The carrier's own child counter is not named: the coupling invariant `some-program-array-counts-the-children` says that some integer array local equals g_nk.
 The tail of the function is REAL: the DataFrame built from the loop's arrays (pd.DataFrame.from_dict is a library model), Tree.from_data_frame
 through the contract verified on the real function below (used modularly, private overlay), sort_tree / _sort_tree / DictSWC.copy inlined,
 sort_nodes_impl through the contract proved under C05 (DEPENDS), whose ghost symbols are defined for the loop's table at the call.  The
@@ -29,7 +34,9 @@ array when sort is on, the identity otherwise), positions / radius / types throu
 greedy attachments read through sg, the branching cap on the returned parent column, ids 0..n-1 and parents first when sorted.
 Defect found here and FIXED in /repo (known_findings.jsonl): with column names other than the default ones and sort=True, _sort_tree stores the new numbering under "id" / "pid" instead
 of the given names; the three clauses marked below were not provable for that variant before the fix.
-MST optimality (Prim => minimum total length) is NOT proved here (bounded stand-in only).
+MST optimality: the postcondition `mst-premise/...` (bf = 0, no limit: every point was attached by a lightest edge across the cut of the points attached before it)
+is the premise of the cut-property lemma lean/Prim.lean (prim_tree_is_minimum / prim_tree_total_is_least, Lean 4 + Mathlib, checked by vcheck); the instantiation
+(V := rows, w := edist, par := pid, pos := g_pos) is by inspection.  In float32 "minimum" holds up to rounding only: bounded stand-in (Kruskal).
 """
 import z3
 
